@@ -45,4 +45,8 @@ def obligations(tier, seed):
                                   kwargs=dict(spec_name=nm, direction=direction, case_name=c.name), cost=5.0 if "bin" in c.name else 1.0))
     from . import c01x
     tasks += c01x.obligations(tier, seed)
+    # translator validation: the interpreter against JAX's concrete execution of the same jaxprs (harness self-check, exit 2 on disagreement)
+    allnames = list(names) + (c01x.COMB_QUICK if tier == "quick" else c01x.COMB_THOROUGH) + (c01x.FWD_ONLY_QUICK if tier == "quick" else c01x.FWD_ONLY_THOROUGH)
+    for i in range(0, len(allnames), 8):
+        tasks.append(dict(name=f"translator-validation/{i // 8}", func="tval:ob_validate", kwargs=dict(names=allnames[i:i + 8], seed=seed), cost=4.0))
     return tasks
